@@ -14,6 +14,8 @@ use util::*;
 pub enum Case {
     Val { t: Ty, v: UVal, o: HOpts, rest: Vec<u8> },
     Bytes { idx: usize, o: HOpts, bs: Vec<u8> },
+    /// the hand-written types::argument::Argument
+    Arg { a: opcua::types::argument::Argument, o: HOpts, rest: Vec<u8> },
 }
 pub struct P;
 
@@ -46,6 +48,33 @@ fn report(t: &Ty, o: &HOpts, input: &[u8], out: &mut Vec<i128>) {
             }
         }
     }
+}
+
+use opcua::types::argument::Argument as HArg;
+fn t_arg(a: &HArg) -> String {
+    format!("(Arg {} {} {} {} (SLText {} {}))", t_ustr(&a.name), t_nodeid(&a.data_type), z(a.value_rank as i128),
+        match &a.array_dimensions { None => "None".to_string(), Some(ds) => format!("(Some {})", zlist(ds.iter().map(|d| *d as i128))) },
+        t_ustr(&a.description.locale), t_ustr(&a.description.text))
+}
+fn s_arg(out: &mut Vec<i128>, a: &HArg) {
+    let mut p = Vec::new();
+    s_variant(&mut p, &Variant::from(a.name.clone())); out.extend(&p[1..]);        // ser_ustr
+    p.clear(); s_variant(&mut p, &Variant::from(a.data_type.clone())); out.extend(&p[1..]);   // ser_nodeid
+    out.push(a.value_rank as i128);
+    match &a.array_dimensions { None => out.push(0), Some(ds) => { out.push(1); out.push(ds.len() as i128); out.extend(ds.iter().map(|d| *d as i128)) } }
+    s_variant(out, &Variant::from(a.description.clone()));
+}
+fn enc_arg(a: &HArg) -> Result<(usize, Vec<u8>), i128> {
+    match guarded(|| { let bl = a.byte_len(); let mut c = Cursor::new(Vec::new()); a.encode(&mut c).map(|_| (bl, c.into_inner())) }) {
+        Ok(Ok(x)) => Ok(x), Ok(Err(_)) => Err(-1), Err(_) => Err(-2),
+    }
+}
+fn g_arg(r: &mut Rng) -> HArg {
+    let rank = r.range(-3, 3) as i32;
+    let dims = if rank > 0 { Some((0..rank).map(|_| g_u32(r)).collect()) }
+               else { match r.below(4) { 0 => None, 1 => Some(vec![]), _ => Some((0..1 + r.below(3)).map(|_| g_u32(r)).collect()) } };
+    HArg { name: g_ustr(r, 5), data_type: g_nodeid(r, 4), value_rank: rank, array_dimensions: dims,
+           description: LocalizedText { locale: g_ustr(r, 3), text: g_ustr(r, 5) } }
 }
 
 impl Property for P {
@@ -99,6 +128,13 @@ impl Property for P {
         for n in [3usize, 4, 5] {
             v.push(Case::Val { t: Ty::S(12), v: UVal::S(Variant::from("a".repeat(n))), o: HOpts { max_str: 4, ..HOpts::default() }, rest: vec![1, 2] });
         }
+        // Argument: the witness of "fix: Argument byte_len counted array dimensions ..." (value_rank <= 0 with
+        // dimensions), and consistent ones
+        let arg = |rank: i32, dims: Option<Vec<u32>>| HArg { name: UAString::from(""), data_type: NodeId::new(255, 223u32), value_rank: rank,
+            array_dimensions: dims, description: LocalizedText { locale: UAString::null(), text: UAString::null() } };
+        for (rank, dims) in [(-1, Some(vec![65536u32])), (0, Some(vec![1, 2])), (-1, None), (-2, Some(vec![])), (1, Some(vec![0])), (2, Some(vec![3, 4]))] {
+            v.push(Case::Arg { a: arg(rank, dims), o: HOpts::default(), rest: vec![7] });
+        }
         v.extend(st::fixed_cases().into_iter().map(|(idx, bs)| Case::Bytes { idx, o: HOpts::default(), bs }));
         v
     }
@@ -106,6 +142,12 @@ impl Property for P {
         if st::count() > 0 && r.chance(1, 5) {
             let (idx, bs) = st::gen_case(r);
             return Case::Bytes { idx, o: HOpts::default(), bs };
+        }
+        if r.chance(1, 25) {
+            let mut o = HOpts::default();
+            if r.chance(1, 5) { o.max_str = r.below(4) as i64; }
+            if r.chance(1, 5) { o.max_arr = r.below(3) as i64; }
+            return Case::Arg { a: g_arg(r), o, rest: g_bytes(r, 4) };
         }
         let mut o = match r.below(8) { 0 => HOpts::minimal(), 1 => HOpts { max_depth: r.below(4) as i64, ..HOpts::default() }, _ => HOpts::default() };
         let smax = 6;
@@ -153,6 +195,30 @@ impl Property for P {
                 Out { tag, term, out }
             }
             Case::Bytes { idx, o, bs } => st::exec_bytes(*idx, o, bs),
+            Case::Arg { a, o, rest } => {
+                let mut out: Vec<i128> = Vec::new();
+                let tag;
+                match enc_arg(a) {
+                    Err(code) => { out.push(code); tag = "Argument-encode-failed".to_string(); }
+                    Ok((bl, b)) => {
+                        out.push(bl as i128); out.push(b.len() as i128); out.extend(b.iter().map(|x| *x as i128));
+                        let mut input = b.clone(); input.extend(rest);
+                        let ro = o.real();
+                        match guarded(|| { let mut s = Cursor::new(&input[..]); let v = HArg::decode(&mut s, &ro); (v, s.position()) }) {
+                            Err(_) => out.push(-2),
+                            Ok((Err(_), _)) => out.push(-1),
+                            Ok((Ok(v), pos)) => {
+                                let mut p = Vec::new(); s_arg(&mut p, &v);
+                                out.push(0); out.push(pos as i128); out.push(p.len() as i128); out.extend(p);
+                                match enc_arg(&v) { Ok((_, b2)) => { out.push(b2.len() as i128); out.extend(b2.iter().map(|x| *x as i128)); } Err(code) => out.push(code) }
+                            }
+                        }
+                        tag = format!("Argument{}{}", if a.value_rank > 0 { "-array" } else if a.array_dimensions.as_ref().map(|d| !d.is_empty()).unwrap_or(false) { "-scalar-with-dimensions" } else { "-scalar" },
+                                      if out[2 + b.len()] == 0 { "" } else { "-rejected" });
+                    }
+                }
+                Out { tag, term: format!("(CArg {} {} {})", t_arg(a), o.term(), zbytes(rest)), out }
+            }
         }
     }
 }
